@@ -498,9 +498,94 @@ func minInt(a, b int) int {
 
 // ---------- token-level generators ----------
 
+// c08Zeros: a run of 0..60 zeros; short runs and the lengths around common table sizes
+// (15-24 digits) are favoured.
+func c08Zeros(c *Ctx) string {
+	var k int
+	switch c.Rng.Intn(4) {
+	case 0:
+		k = c.Rng.Intn(4)
+	case 1:
+		k = 13 + c.Rng.Intn(14)
+	default:
+		k = 1 + c.Rng.Intn(60)
+	}
+	return strings.Repeat("0", k)
+}
+
+func c08Digits(c *Ctx, n int) string {
+	b := make([]byte, n)
+	for i := range b {
+		b[i] = byte('0' + c.Rng.Intn(10))
+	}
+	if n > 0 && b[0] == '0' {
+		b[0] = byte('1' + c.Rng.Intn(9))
+	}
+	return string(b)
+}
+
+// c08GenLongNum: LONG numerals of small magnitude information: zeros(1..60) before and after the
+// significant digits, on both sides of the point, few (0-3, sometimes up to 17) significant
+// digits, with and without point and exponent.  The length of a literal, the number of its
+// decimals and the number of its significant digits are independent of each other and of its
+// magnitude; converters with fast paths index tables by any of them.
+func c08GenLongNum(c *Ctx) string {
+	sig := func() string {
+		switch c.Rng.Intn(6) {
+		case 0:
+			return ""
+		case 1:
+			return c08Digits(c, 4+c.Rng.Intn(14))
+		default:
+			return c08Digits(c, 1+c.Rng.Intn(3))
+		}
+	}
+	opt := func(s string) string {
+		if c.Rng.Intn(3) == 0 {
+			return ""
+		}
+		return s
+	}
+	var sb strings.Builder
+	if c.Rng.Intn(4) == 0 {
+		sb.WriteByte('-')
+	}
+	ip := opt(c08Zeros(c)) + sig() + opt(c08Zeros(c))
+	if ip == "" {
+		ip = "0"
+	}
+	sb.WriteString(ip)
+	if c.Rng.Intn(5) != 0 {
+		fp := opt(c08Zeros(c)) + sig() + opt(c08Zeros(c))
+		if fp == "" {
+			fp = "0"
+		}
+		sb.WriteString("." + fp)
+	}
+	if c.Rng.Intn(3) == 0 {
+		sb.WriteString([]string{"e", "E"}[c.Rng.Intn(2)] + []string{"", "+", "-"}[c.Rng.Intn(3)])
+		sb.WriteString(opt(strings.Repeat("0", c.Rng.Intn(4))) + strconv.Itoa(c.Rng.Intn([]int{10, 40, 400}[c.Rng.Intn(3)])))
+	}
+	return sb.String()
+}
+
+// long numerals of the catalogue (they also go into every literal position of the API-level
+// mutants): k zeros on either side of the point and of the significant digits, k around the
+// sizes that digit-count-indexed tables usually have
+func init() {
+	for _, k := range []int{1, 7, 15, 16, 17, 18, 19, 20, 21, 22, 23, 24, 25, 31, 32, 33, 40, 60} {
+		z := strings.Repeat("0", k)
+		c08Numerals = append(c08Numerals,
+			"0."+z, "0."+z+"1", "1."+z, "1."+z+"1", "0."+z+"123456789012", z+"1.5", z+"."+z, "1"+z+".0", "1"+z+"."+z+"1",
+			"-0."+z+"5", "0."+z+"1e5", "0."+z+"1e-5", "1"+z+"e-"+strconv.Itoa(k), z+"7", "12"+z)
+	}
+}
+
 func c08GenNum(c *Ctx) string {
 	var s string
-	switch c.Rng.Intn(7) {
+	switch c.Rng.Intn(9) {
+	case 7, 8:
+		s = c08GenLongNum(c)
 	case 0, 1:
 		s = c08Numerals[c.Rng.Intn(len(c08Numerals))]
 	case 2:
@@ -610,6 +695,17 @@ func c08Try(f func() string) (out string) {
 	return f()
 }
 
+// c08NextTokenGuarded: nextToken under recover (pn = the panic value, "" if none)
+func c08NextTokenGuarded(b []byte) (id int, v []byte, pn string) {
+	defer func() {
+		if p := recover(); p != nil {
+			pn = c08Norm(fmt.Sprint(p))
+		}
+	}()
+	id, v = syntax.VerifNextToken(b)
+	return id, v, ""
+}
+
 func optHexGo(b []byte) string {
 	if b == nil {
 		return "none"
@@ -621,7 +717,7 @@ func optHexGo(b []byte) string {
 
 func runC08(c *Ctx) {
 	r := c.Res
-	r.Rule = "(1) token level: numeric-looking strings (boundary numerals around 2^63/2^64/MaxFloat64/MaxFloat32, random digit/exponent strings, the regex-typo alphabet incl. ':') and string-literal-looking strings (every escape form, near-miss escapes, raw control/non-ASCII/invalid bytes): Go regexp token rules, nextToken, parseInt/parseFloat/parseFloat32/unquoteBytes (panic = recover) vs the Lean recognisers/converters; non-trivial = the rule matched or a converter was exercised. (2) API level: grammar-aware mutants (numeral/string/keyword substitution, truncation at every byte of small seeds, punctuation/byte insertion, span delete/dup/splice, nesting) of the repo's own .mro files + built-in near-valid programs and value expressions through ParseSourceBytes, ParseValExp, FormatSrcBytes under recover() with a deadline of 2 s + 20 us/byte; non-trivial = mutant differs from its seed; distinct = distinct input. (3) scaling probes in a subprocess (nesting depth up to 1e5/1e6, long lists/strings/comments, many declarations/calls/comments)."
+	r.Rule = "(1) token level: numeric-looking strings (boundary numerals around 2^63/2^64/MaxFloat64/MaxFloat32, random digit/exponent strings, the regex-typo alphabet incl. ':') and string-literal-looking strings (every escape form, near-miss escapes, raw control/non-ASCII/invalid bytes): Go regexp token rules, nextToken, parseInt/parseFloat/parseFloat32/unquoteBytes (panic = recover) vs the Lean recognisers/converters; non-trivial = the rule matched or a converter was exercised. (1b) regex model: generated regex/input pairs inside the syntax subset of Martian.Regex.parse (alternation, greedy and counted repetition, classes, negated classes, anchors; inputs sampled from the regex, corrupted, with non-ASCII/invalid tails) through Go regexp Compile+Find vs the Lean parser + leftmost-first matcher, and the four regenerated rule regexes through the generic matcher vs the real rule functions; non-trivial = Go found a match. (1c) whole tokenizer: token streams (id, text, line, column), comment blocks and final position of the real mmLexInfo.Lex loop vs the Lean tokenizer model (interpreted from the regenerated keywordToken switch and token constants) on the repo .mro files, byte-level mutants and concatenations of keywords/near-keywords/numerals/strings/comments/ASCII and non-ASCII white space/invalid bytes, plus nextToken on single heads and a direct prefix/progress monitor; non-trivial = more than one token. (2) API level: grammar-aware mutants (numeral/string/keyword substitution, truncation at every byte of small seeds, punctuation/byte insertion, span delete/dup/splice, nesting) of the repo's own .mro files + built-in near-valid programs and value expressions through ParseSourceBytes, ParseValExp, FormatSrcBytes under recover() with a deadline of 2 s + 20 us/byte; non-trivial = mutant differs from its seed; distinct = distinct input. (3) scaling probes in a subprocess (nesting depth up to 1e5/1e6, long lists/strings/comments, many declarations/calls/comments)."
 	if c.Drv == nil {
 		fatal("C08 needs the Lean driver")
 	}
@@ -634,6 +730,22 @@ func runC08(c *Ctx) {
 				What:  "a token regex in tokenizer.go is not one the Lean recognisers were written for: " + rules,
 				Input: rules, Broken: "Props.C08.int_rule_src / float_rule_src / string_rule_src"})
 		}
+	}
+
+	// development aid: VERIF_C08_ONLY=lex runs the lexer-level phases only
+	if only := os.Getenv("VERIF_C08_ONLY"); strings.HasPrefix(only, "lex") {
+		t0 := time.Now()
+		if only == "lex" || only == "lex:tokens" {
+			c08Tokens(c)
+			r.note("token phase: %.1fs", time.Since(t0).Seconds())
+		}
+		if only == "lex" || only == "lex:regex" {
+			c08Regex(c)
+		}
+		if only == "lex" || only == "lex:stream" {
+			c08TokenStream(c)
+		}
+		return
 	}
 
 	// ---- 0 + 2. corpus and API-level monitors, in a child process: a fatal Go error
@@ -651,6 +763,9 @@ func runC08(c *Ctx) {
 
 	// ---- 1. token-level correspondence ----
 	c08Tokens(c)
+	// ---- 1b. regex model vs Go regexp; 1c. whole tokenizer: token streams vs the model ----
+	c08Regex(c)
+	c08TokenStream(c)
 	// ---- 3. src_stm action: Go vs model ----
 	c08SrcAction(c)
 	// ---- 3b. include trees with planted errors: every returned error is rendered (child process) ----
@@ -947,7 +1062,13 @@ func c08Tokens(c *Ctx) {
 				Input: strconv.Quote(s), Impl: g, Model: reps[3*i+1], Broken: "correspondence C08.float (Martian.Lexer.matchFloat)"})
 		}
 		if len(b) > 0 && (b[0] == '-' || (b[0] >= '0' && b[0] <= '9')) {
-			id, v := syntax.VerifNextToken(b)
+			id, v, pn := c08NextTokenGuarded(b)
+			if pn != "" {
+				r.violate(Violation{Kind: "property", Key: "C08:panic:nextToken",
+					What:  "nextToken (the tokenizer, before any grammar action) panics on a numeric-looking head: " + pn,
+					Input: strconv.Quote(s), Impl: "panic: " + pn, Expect: "a token or INVALID", Broken: "Props.C08.num_tok_converts"})
+				continue
+			}
 			var g string
 			switch {
 			case id == syntax.VerifTokNUM_FLOAT:
@@ -1070,7 +1191,13 @@ func c08Tokens(c *Ctx) {
 				head[j] = byte(c.Rng.Intn(256))
 			}
 		}
-		id, v := syntax.VerifNextToken(head)
+		id, v, pn := c08NextTokenGuarded(head)
+		if pn != "" {
+			r.violate(Violation{Kind: "property", Key: "C08:panic:nextToken",
+				What:  "nextToken panics: " + pn,
+				Input: strconv.Quote(string(head)), Impl: "panic: " + pn, Expect: "a token or INVALID", Broken: "Props.C08.lexer_progress"})
+			continue
+		}
 		r.count("head:"+string(head), len(v) > 0)
 		if (id != syntax.VerifTokINVALID && len(v) == 0) || !bytes.HasPrefix(head, v) {
 			r.violate(Violation{Kind: "property", Key: "C08:lexer-no-progress",
